@@ -5,7 +5,7 @@ import random
 import core
 import decsuite as ds
 
-THEOREMS = ["C14.c14_hex", "C14.c14_hex_top", "C14.c14_row_columns", "C14.c14_total", "C14.c14_total_top",
+THEOREMS = ["C14.c14_total_b", "C14.shaped_of_b", "C14.c14_hex", "C14.c14_hex_top", "C14.c14_row_columns", "C14.c14_total", "C14.c14_total_top",
             "C14.foldBytes_hex", "C14.foldElems_hex", "C14.c14_events_rows"]
 
 
@@ -35,7 +35,11 @@ def run(ctx, replay_case):
         erow = [l for l in b if l.startswith("E")]
         u = next((l for l in b if l.startswith("U ")), "U ? 0").split(" ")
         problem = None
-        if any(l.startswith("P crash") or "?unparsed" in l for l in prow):
+        kline = next((l for l in b if l.startswith("K ")), "K ?")
+        stats["shaped" if kline == "K 1" else "not shaped"] += 1
+        if kline != "K 1":
+            problem = "the decoder produced an event stream outside the hypothesis of the printers' totality theorem (a value of no primitive class, or a byte-buffer child without a value)"
+        elif any(l.startswith("P crash") or "?unparsed" in l for l in prow):
             problem = "pretty printer failed: " + next(l for l in prow if "crash" in l or "?unparsed" in l)
         elif any(l.startswith("E crash") or "?unparsed" in l for l in erow):
             problem = "events printer failed: " + next(l for l in erow if "crash" in l or "?unparsed" in l)
@@ -98,6 +102,7 @@ def run(ctx, replay_case):
     })
 
 
-PROP = {"targets": ["TpmProofs.Props.C14"], "module": "TpmProofs.Props.C14", "theorems": THEOREMS, "run": run,
+PROP = {"targets": ["TpmProofs.Props.C14E"], "module": "TpmProofs.Props.C14E", "theorems": THEOREMS, "run": run,
         "assumptions": ["final string padding and colour codes are not modelled (rows are compared column-wise)",
-                        "that decoder-produced streams are `Shaped` is monitored on the implementation's streams, not proved of the decoder"]}
+                        "that decoder-produced streams are shaped (`shapedB`: values of primitive classes, byte-buffer children carry values) is evaluated on every "
+                        "stream by the model (K line of PRINT) and independently on the implementation's events; it is not proved of the decoder"]}
